@@ -1547,6 +1547,10 @@ func init() {
 	imported("C18", "C18.R5", "the runner is stopped on every path after it was started (shared with C05.R3)", "C05", []string{"C05.R3"}, keyContains("progress-region", "progress-start"), 0)
 	imported("C02", "C02.R9", "what a tick requests is what reaches the pending counter: a request trimmed or changed on the way is neither started nor reported dropped (shared with C09.R2)", "C09", []string{"C09.R2"}, keyContains("#chain"), 1)
 	imported("C04", "C04.R8", "pending requests are not lost on the way to the workers: supersede and take are single atomic read-modify-writes, so that `concurrency` pending requests can occupy all workers (shared with C02.R2)", "C02", []string{"C02.R2"}, nil, 2)
+	imported("C08", "C08.R10", "the verdict is computed from the final totals: they are stored unmodified and unconditionally where they are taken (shared with C01.R16)", "C01", []string{"C01.R16"}, nil, 2)
+	imported("C19", "C19.R10", "the summary states the final totals: they are stored unmodified and unconditionally where they are taken (shared with C01.R16)", "C01", []string{"C01.R16"}, nil, 2)
+	imported("C03", "C03.R9", "every invocation observes its own iteration id: the id is stored in the worker's handle, so no two running workers — of this pool or of an earlier stage's pool whose iteration is still in flight — may share a handle: every pool builds its own per-worker states (shared with C07.R5)", "C07", []string{"C07.R5"}, nil, 1)
+	imported("C20", "C20.R6", "a component's failure or stop is booked on that iteration's handle: every pool builds its own per-worker states, so an iteration overrunning its stage does not share a handle with an iteration of the next stage (shared with C07.R5)", "C07", []string{"C07.R5"}, nil, 1)
 	imported("C20", "C20.R4", "a stop inside a component unwinds to the runner's frame: recover is called only by the classifier deferred from frames that call user code, and the pooled handle is fully reset between iterations (shared with C07.R4, C07.R6)", "C07", []string{"C07.R4", "C07.R6"}, nil, 3)
 }
 
